@@ -1,11 +1,13 @@
 #!/bin/bash
-# tools/confirm_seed.sh <worktree> <MUT_dir_name>   -> confirms: patch applies, full test suite passes with it, demo fails with it and passes without
+# tools/confirm_seed.sh <worktree> <MUT_dir (relative to worktree or absolute)>
+# confirms: patch applies, full test suite passes with it, demo fails with it and passes without
 wt="$1"; mut="$2"; cd "$wt" || exit 2
+case "$mut" in /*) mdir="$mut";; *) mdir="$wt/$mut";; esac
 export PYTHONPATH="$wt/src"
-git checkout -q -- . ; 
-git apply "$mut/patch.diff" || { echo "RESULT $wt $mut: patch does not apply"; exit 1; }
+git checkout -q -- . ;
+git apply "$mdir/patch.diff" || { echo "RESULT $wt $mut: patch does not apply"; exit 1; }
 t=$(/venv/bin/python -m pytest -q -p no:cacheprovider -n 6 tests 2>&1 | tail -1)
-/venv/bin/python "$mut/demo.py" >/dev/null 2>&1; d_with=$?
-git apply -R "$mut/patch.diff"
-/venv/bin/python "$mut/demo.py" >/dev/null 2>&1; d_without=$?
+/venv/bin/python "$mdir/demo.py" >/dev/null 2>&1; d_with=$?
+git apply -R "$mdir/patch.diff"
+/venv/bin/python "$mdir/demo.py" >/dev/null 2>&1; d_without=$?
 echo "RESULT $wt $mut: tests[$t] demo_with=$d_with demo_without=$d_without"
